@@ -208,6 +208,9 @@ func FuzzC04Bytes(f *testing.F) {
 		}
 		c := c04BytesCase{Kind: "native-fuzz", Hex: hex.EncodeToString(b)}
 		v := c04BytesOracle(c)
+		if !v.Skip {
+			ev.FuzzCount("C04.decoded-values-judged")
+		}
 		if v.Err != nil {
 			if r.IsKnown(v.Key) {
 				return
